@@ -29,6 +29,7 @@ import (
 	"github.com/containers/nri-plugins/pkg/agent"
 	cfgapi "github.com/containers/nri-plugins/pkg/apis/config/v1alpha1"
 	policycfg "github.com/containers/nri-plugins/pkg/apis/config/v1alpha1/resmgr/policy"
+	bcfg "github.com/containers/nri-plugins/pkg/apis/config/v1alpha1/resmgr/policy/balloons"
 	tacfg "github.com/containers/nri-plugins/pkg/apis/config/v1alpha1/resmgr/policy/topologyaware"
 	"github.com/containers/nri-plugins/pkg/kubernetes"
 	"github.com/containers/nri-plugins/pkg/resmgr/cache"
@@ -58,6 +59,7 @@ type vHarness struct {
 	mach     *verifgen.Machine
 	stateDir string
 	cfgv     cfgapi.ResmgrConfig
+	treePrinted bool
 }
 
 // vRestart models a plugin restart: a new resource manager on the same state directory.
@@ -247,8 +249,14 @@ func (h *vHarness) vSnapshot(w *bufio.Writer) {
 	switch h.polName {
 	case "balloons":
 		for _, l := range balloons.VerifSnapshot(h.backend) {
+			if strings.HasPrefix(l, "BL ") || strings.HasPrefix(l, "BD ") {
+				if h.treePrinted {
+					continue // the CPU tree and the balloon types are static: printed with the first snapshot only
+				}
+			}
 			fmt.Fprintln(w, l)
 		}
+		h.treePrinted = true
 	default:
 		for _, l := range topologyaware.VerifSnapshot(h.backend) {
 			fmt.Fprintln(w, l)
@@ -363,6 +371,14 @@ func vGenPod(rng *rand.Rand, n int) *vPod {
 	case 8:
 		p.ann["prefer-isolated-cpus."+vKey+"/pod"] = "false"
 	}
+	if vBalloonAnn {
+		switch rng.Intn(10) {
+		case 0:
+			p.ann["balloon.balloons."+vKey] = []string{"dyn", "fixed", "default", "nosuch"}[rng.Intn(4)]
+		case 1:
+			p.ann["hide-hyperthreads."+vKey+"/pod"] = []string{"true", "false"}[rng.Intn(2)]
+		}
+	}
 	// annotations consumed while the container is inserted into the cache (class assignment,
 	// topology hints): they exercise cache code that runs before the policy sees the container
 	if rng.Intn(5) == 0 {
@@ -414,6 +430,7 @@ var (
 	vMemHeavy bool
 	vNodeMem  []int64
 	vRestarts bool // histories with plugin restarts (C11)
+	vBalloonAnn bool // pods may carry balloons-policy annotations (balloon type, hide-hyperthreads)
 )
 
 func vPodKeys(wd *vWorld) []string {
@@ -825,4 +842,112 @@ func vOneWord(s string) string {
 		}
 		return r
 	}, s)
+}
+
+// vBACfg: balloons configurations over the options the property quantifies over.
+func vBACfg(rng *rand.Rand, m *verifgen.Machine) (*cfgapi.BalloonsPolicy, string) {
+	cfg := &cfgapi.BalloonsPolicy{}
+	cfg.Name = "default"
+	c := &cfg.Spec.Config
+	t, f := true, false
+	c.PinCPU, c.PinMemory = &t, &t
+	desc := []string{}
+	if rng.Intn(8) == 0 {
+		c.PinCPU = &f
+		desc = append(desc, "pincpu=0")
+	}
+	if rng.Intn(6) == 0 {
+		c.PinMemory = &f
+		desc = append(desc, "pinmem=0")
+	}
+	c.ReservedResources = bcfg.Constraints{policycfg.CPU: "750m"}
+	if rng.Intn(3) == 0 {
+		c.ReservedPoolNamespaces = []string{"reserved-*"}
+		desc = append(desc, "reservedns=reserved-*")
+	}
+	c.IdleCpuClass = "idle"
+	n := len(m.Online())
+	levels := []bcfg.CPUTopologyLevel{"", "system", "package", "die", "numa", "core"}
+	mk := func(name string) *bcfg.BalloonDef {
+		d := &bcfg.BalloonDef{Name: name, CpuClass: name + "cls"}
+		d.ShareIdleCpusInSame = levels[rng.Intn(len(levels))]
+		if rng.Intn(3) == 0 {
+			d.HideHyperthreads = &t
+		}
+		d.PreferNewBalloons = rng.Intn(3) == 0
+		d.PreferSpreadingPods = rng.Intn(3) == 0
+		d.PreferPerNamespaceBalloon = rng.Intn(4) == 0
+		if rng.Intn(4) == 0 {
+			d.PreferSpreadOnPhysicalCores = &t
+		}
+		desc = append(desc, fmt.Sprintf("%s:share=%s,hide=%v", name, d.ShareIdleCpusInSame, d.HideHyperthreads != nil))
+		return d
+	}
+	dyn := mk("dyn")
+	dyn.Namespaces = []string{"prod"}
+	dyn.MaxCpus = rng.Intn(5) // 0 = no limit
+	if rng.Intn(3) == 0 {
+		dyn.MinCpus = 1
+	}
+	if rng.Intn(3) == 0 {
+		dyn.MaxBalloons = 1 + rng.Intn(3)
+	}
+	c.BalloonDefs = []*bcfg.BalloonDef{dyn}
+	if n >= 4 && rng.Intn(3) != 0 {
+		fx := mk("fixed")
+		fx.MinCpus, fx.MaxCpus = 1, 1+rng.Intn(3)
+		fx.MinBalloons, fx.MaxBalloons = rng.Intn(2), 1+rng.Intn(2)
+		if rng.Intn(2) == 0 {
+			fx.Namespaces = []string{"default"}
+		}
+		if rng.Intn(3) == 0 {
+			fx.GroupBy = "${pod/namespace}"
+		}
+		c.BalloonDefs = append(c.BalloonDefs, fx)
+	}
+	if rng.Intn(3) == 0 {
+		c.AllocatorTopologyBalancing = true
+		desc = append(desc, "topobalance")
+	}
+	return cfg, strings.Join(desc, ";")
+}
+
+func TestVerifBAHistories(t *testing.T) {
+	w, done := vOpen(t)
+	defer done()
+	seed, _ := strconv.ParseInt(os.Getenv("VERIF_SEED"), 10, 64)
+	rng := rand.New(rand.NewSource(seed + 200))
+	n := 120
+	if os.Getenv("VERIF_TIER") == "thorough" {
+		n = 4000
+	}
+	if v, err := strconv.Atoi(os.Getenv("VERIF_HISTORIES")); err == nil {
+		n = v
+	}
+	for i := 0; i < n; i++ {
+		opts := verifgen.DefaultOpts()
+		opts.AllowHybrid = false
+		m := verifgen.Gen(rng, opts)
+		cfg, desc := vBACfg(rng, m)
+		root := t.TempDir()
+		fmt.Fprintf(w, "H %d ba %s\n", i, desc)
+		fmt.Fprintf(w, "M %s\n", m.Line())
+		h, err := vNewHarness(t, m, root, filepath.Join(root, "state"), "balloons", cfg)
+		if err != nil {
+			fmt.Fprintf(w, "HERR %s\n", vOneWord(err.Error()))
+			continue
+		}
+		fmt.Fprintf(w, "E init\nR ok - -\n")
+		h.vAfter(w)
+		wd := &vWorld{pods: map[string]*vPod{}, ctrs: map[string]*vCtr{}}
+		vMemHeavy, vNodeMem = false, nil
+		vRestarts = os.Getenv("VERIF_RESTARTS") == "1"
+		vBalloonAnn = true
+		h.vRunHistory(w, rng, wd, 8+rng.Intn(40), len(m.Online()), i%4 == 3)
+		vBalloonAnn = false
+		fmt.Fprintf(w, "Q drain\n")
+		h.vDrain(w, wd)
+		fmt.Fprintf(w, "Q end\n")
+		w.Flush()
+	}
 }
